@@ -14,6 +14,8 @@ import (
 	"bytes"
 	"encoding/hex"
 	"fmt"
+	"hash/fnv"
+	"io"
 	"net/http"
 	"net/http/httptest"
 	"strings"
@@ -209,6 +211,18 @@ type c16Request struct {
 	Gen    string // which generator produced it (evidence)
 }
 
+// chunked: every third body-carrying request (chosen by its content, so that a replay makes the same choice) is sent
+// without a declared length, as a client using chunked transfer encoding does. The answer may not depend on it.
+func (q *c16Request) chunked() bool {
+	if q.Body == nil {
+		return false
+	}
+	h := fnv.New32a()
+	_, _ = h.Write([]byte(q.Method + " " + q.Target + " "))
+	_, _ = h.Write(q.Body)
+	return h.Sum32()%3 == 0
+}
+
 func (q *c16Request) build() (*http.Request, error) {
 	var rd *bytes.Reader
 	if q.Body == nil {
@@ -222,6 +236,12 @@ func (q *c16Request) build() (*http.Request, error) {
 	}
 	req.RequestURI = q.Target
 	req.RemoteAddr = "192.0.2.1:1234"
+	if q.chunked() {
+		// what the server sees for `Transfer-Encoding: chunked`: a body of undeclared length
+		req.Body = io.NopCloser(struct{ io.Reader }{bytes.NewReader(q.Body)})
+		req.ContentLength = -1
+		req.TransferEncoding = []string{"chunked"}
+	}
 	if q.CType != "" {
 		req.Header.Set("Content-Type", q.CType)
 	}
